@@ -71,6 +71,40 @@ class Roles:
         return any(re.search(r"\b%s\b" % re.escape(n), text) for n in names) or bool(FILEISH.search(text))
 
 
+WIN_PRED = []      # modules in which `if g():` may be resolved to a Windows test (set by gen_registry)
+
+
+def _is_windows_predicate(test):
+    """`g()` for a parameterless module-level g whose body is `v1 = e1; ..; return e` and whose returned expression, after
+    substituting the local assignments, is the very test `'win32' in sys.platform[.lower()]`.  Calling g() at the point of the
+    `if` evaluates exactly that expression (the locals are fresh, the expressions read only sys.platform)."""
+    if not (isinstance(test, ast.Call) and isinstance(test.func, ast.Name) and not test.args and not test.keywords):
+        return False
+    import copy
+    for mod in WIN_PRED:
+        gs = [n for n in mod.body if isinstance(n, ast.FunctionDef) and n.name == test.func.id]
+        if len(gs) != 1:
+            continue
+        g = gs[0]
+        body = strip_doc(g.body)
+        a = g.args
+        if a.args or a.vararg or a.kwarg or a.kwonlyargs or g.decorator_list or not body or not isinstance(body[-1], ast.Return) \
+                or body[-1].value is None:
+            return False
+        env = {}
+
+        class Sub(ast.NodeTransformer):
+            def visit_Name(self, node):
+                return copy.deepcopy(env[node.id]) if node.id in env and isinstance(node.ctx, ast.Load) else node
+        for st in body[:-1]:
+            if not (isinstance(st, ast.Assign) and len(st.targets) == 1 and isinstance(st.targets[0], ast.Name)):
+                return False
+            env[st.targets[0].id] = Sub().visit(copy.deepcopy(st.value))
+        text = U(Sub().visit(copy.deepcopy(body[-1].value)))
+        return bool(re.fullmatch(r"'win32' in sys\.platform(\.lower\(\))?", text))
+    return False
+
+
 def step_of_stmt(st, roles, where, expand_call=None):
     """one statement of a callback / straight-line body -> list of steps (possibly empty), or None for 'stop' (return)"""
     t = U(st)
@@ -78,7 +112,7 @@ def step_of_stmt(st, roles, where, expand_call=None):
         return None
     if isinstance(st, ast.Pass):
         return []
-    if isinstance(st, ast.If) and re.search(r"isWindows\(\)|win32", U(st.test)):
+    if isinstance(st, ast.If) and (re.search(r"isWindows\(\)|win32", U(st.test)) or _is_windows_predicate(st.test)):
         return []      # Windows-only branch; the model is POSIX
     if isinstance(st, ast.Try):
         # try: <exactly one move>  except: (try: <unlink> except OSError: pass); raise      -- nothing else is accepted
@@ -161,6 +195,44 @@ def coq_steps(name, steps):
     return "Definition %s : list stepk := [%s]." % (name, "; ".join(steps))
 
 
+def _alpha(fn, body, param_to=None, first_local_to=None):
+    """body with the (single) non-self parameter renamed to `param_to`, resp. the local bound by the FIRST statement renamed to
+    `first_local_to`.  Renaming a parameter that is only ever passed positionally (Deferred callbacks are) or a local variable
+    consistently is the same program, provided the new name is not already used in the function for something else -- checked."""
+    import copy
+    mapping = {}
+    used = {x.id for st in body for x in ast.walk(st) if isinstance(x, ast.Name)} | {a.arg for a in fn.args.args}
+    if param_to is not None:
+        ps = [a.arg for a in fn.args.args]
+        if len(ps) == 2 and ps[0] == "self" and not fn.args.vararg and not fn.args.kwarg and not fn.args.kwonlyargs and not fn.args.defaults \
+                and ps[1] != param_to and param_to not in used:
+            mapping[ps[1]] = param_to
+    if first_local_to is not None and body and isinstance(body[0], ast.Assign) and len(body[0].targets) == 1 \
+            and isinstance(body[0].targets[0], ast.Name):
+        v = body[0].targets[0].id
+        stores = [x for st in body for x in ast.walk(st) if isinstance(x, ast.Name) and isinstance(x.ctx, ast.Store) and x.id == v]
+        if v != first_local_to and first_local_to not in used and len(stores) == 1 \
+                and not any(isinstance(x, (ast.FunctionDef, ast.Lambda, ast.Global, ast.Nonlocal)) for st in body for x in ast.walk(st)):
+            mapping[v] = first_local_to
+    if not mapping:
+        return body
+    return [ast.fix_missing_locations(_Rename(mapping).visit(copy.deepcopy(st))) for st in body]
+
+
+def _early_return_to_else(body):
+    """`if not c: B...; return` followed by A...   ==>   `if c: A... else: B...`
+    Same statements in the same order for every value of c (its truth is evaluated once in both forms); both forms fall off
+    the end / return None.  Only applied when the `if` is the first statement, has no else, its last statement is a bare
+    `return` (or `return None`), and neither B nor A contains another return."""
+    if len(body) >= 2 and isinstance(body[0], ast.If) and not body[0].orelse and isinstance(body[0].test, ast.UnaryOp) \
+            and isinstance(body[0].test.op, ast.Not) and body[0].body and isinstance(body[0].body[-1], ast.Return) \
+            and (body[0].body[-1].value is None or (isinstance(body[0].body[-1].value, ast.Constant) and body[0].body[-1].value.value is None)):
+        B, A = body[0].body[:-1], body[1:]
+        if B and not any(isinstance(x, (ast.Return, ast.Yield, ast.YieldFrom)) for st in B + A for x in ast.walk(st)):
+            return [ast.fix_missing_locations(ast.If(test=body[0].test.operand, body=A, orelse=B))]
+    return body
+
+
 def gen_putfile(out):
     mod = P.load("appserver/services.py")
     fn = P.find_def(mod, "FileUploader.remote_putfile")
@@ -175,6 +247,7 @@ def gen_putfile(out):
     wired = None
     reader_var = None
     d_var = None
+    refused = []
     body = strip_doc(fn.body)
     for i, st in enumerate(body):
         t = U(st)
@@ -209,6 +282,29 @@ def gen_putfile(out):
                 main.append("SBlocks %s" % reader_var[1])
                 d_var = v
                 continue
+        # an up-front refusal of literal names: `if name in (<literals>): raise ..` / `if name == <literal>: raise ..`
+        # (os.curdir / os.pardir are '.' / '..' on POSIX).  It can only refuse MORE names; which ones is part of the model.
+        if isinstance(st, ast.If) and not st.orelse and st.body and isinstance(st.body[-1], ast.Raise) and ctor is None \
+                and isinstance(st.test, ast.Compare) and len(st.test.ops) == 1 and U(st.test.left) == "name" \
+                and not any(roles.mentions(U(x)) for x in st.body[:-1]):
+            lits = None
+            cmpv = st.test.comparators[0]
+            if isinstance(st.test.ops[0], ast.In) and isinstance(cmpv, (ast.Tuple, ast.List, ast.Set)):
+                lits = cmpv.elts
+            elif isinstance(st.test.ops[0], ast.Eq):
+                lits = [cmpv]
+            vals = []
+            for e in lits or []:
+                if isinstance(e, ast.Constant) and isinstance(e.value, str):
+                    vals.append(e.value)
+                elif U(e) in ("os.curdir", "os.pardir"):
+                    vals.append("." if U(e) == "os.curdir" else "..")
+                else:
+                    vals = None
+                    break
+            if lits is not None and vals is not None:
+                refused.extend(vals)
+                continue
         mg = re.fullmatch(r"(\w+)\.parent\(\) != self\.targetdir", U(st.test)) if isinstance(st, ast.If) else None
         if mg and roles.obj.get(mg.group(1)) == "Final" and len(st.body) >= 1 and isinstance(st.body[-1], ast.Raise) \
                 and not st.orelse:
@@ -242,18 +338,22 @@ def gen_putfile(out):
     guard = "GuardParentEq" if (guard_at is not None and guard_at < open_at) else "NoGuard"
     out.append("(* appserver/services.py FileUploader.remote_putfile *)")
     out.append("Definition putfile_guard : guardk := %s." % guard)
+    out.append("Definition putfile_refused : list (list N) := [%s].  (* literal names refused before child(): %r *)"
+               % ("; ".join(blist(x) for x in refused), refused))
     out.append("Definition putfile_tmp_ext : list N := %s.  (* %r *)" % (blist(ext), ext))
     out.append(coq_steps("putfile_main", main))
     out.append(coq_steps("putfile_done", cbs[wired[0]]))
     out.append(coq_steps("putfile_err", cbs[wired[1]]))
     # the reader: writes every non-empty block, finishes on an empty one, errbacks on a source error
     gd = P.find_def(mod, "FileUploaderReader._got_data")
-    b = strip_doc(gd.body)
+    b = _early_return_to_else(_alpha(gd, strip_doc(gd.body), param_to="data"))
     ok = (len(b) == 1 and isinstance(b[0], ast.If) and U(b[0].test) == "data"
           and [U(s) for s in b[0].body] == ["self.f.write(data)", "self.read_block()"]
           and [U(s) for s in b[0].orelse] == ["self.d.callback(None)"])
-    ge = [U(s) for s in strip_doc(P.find_def(mod, "FileUploaderReader._got_error").body)]
-    rb = [U(s) for s in strip_doc(P.find_def(mod, "FileUploaderReader.read_block").body)]
+    gef = P.find_def(mod, "FileUploaderReader._got_error")
+    ge = [U(s) for s in _alpha(gef, strip_doc(gef.body), param_to="f")]
+    rbf = P.find_def(mod, "FileUploaderReader.read_block")
+    rb = [U(s) for s in _alpha(rbf, strip_doc(rbf.body), first_local_to="d")]
     call = "d = self.source.callRemote('read', self.BLOCKSIZE)"
     # d.addCallback(_got_data); d.addErrback(_got_error): the errback ALSO sees an exception raised by _got_data itself
     # (f.write failing).  d.addCallbacks(_got_data, _got_error) / errback added first: it only sees a failed callRemote.
@@ -282,38 +382,91 @@ def gen_registry(out):
         raise P.Untranslatable("move_into_place signature changed")
     roles = Roles()
     steps = []
-    base = ext = None
-    for st in strip_doc(fn.body):
-        t = U(st)
-        if isinstance(st, ast.Assign) and len(st.targets) == 1 and isinstance(st.targets[0], ast.Name):
-            v, val = st.targets[0].id, U(st.value)
-            m = re.fullmatch(r"os\.path\.join\(basedir, ('[^'/]+')\)", val)
-            if m:
-                base = ast.literal_eval(m.group(1))
-                roles.path[v] = "Final"
+    found = {}
+    WIN_PRED[:] = [um]
+
+    def void_helper(st):
+        """`h(a1..an)` as a whole statement, h a plain module-level function of server.py (defined once, no decorators, only
+        positional parameters, never assigns a parameter, no nested def/lambda/yield/global, no `return <value>`), every
+        argument a bare name: the call runs h's body with the parameters bound to the very objects the arguments denote, in a
+        fresh frame; so its file statements are the caller's, performed at this point, on the files the arguments denote."""
+        if not (isinstance(st, ast.Expr) and isinstance(st.value, ast.Call) and isinstance(st.value.func, ast.Name)
+                and not st.value.keywords and all(isinstance(a, ast.Name) for a in st.value.args)):
+            return None
+        hs = [n for n in mod.body if isinstance(n, ast.FunctionDef) and n.name == st.value.func.id]
+        if len(hs) != 1 or hs[0] is fn:
+            return None
+        h = hs[0]
+        a = h.args
+        params = [x.arg for x in a.args]
+        hb = strip_doc(h.body)
+        inner = [x for s2 in hb for x in ast.walk(s2)]
+        if h.decorator_list or a.vararg or a.kwarg or a.kwonlyargs or a.defaults or len(params) != len(st.value.args) \
+                or any(isinstance(x, (ast.FunctionDef, ast.Lambda, ast.Yield, ast.YieldFrom, ast.Global, ast.Nonlocal, ast.ClassDef)) for x in inner) \
+                or any(isinstance(x, ast.Return) and x.value is not None for x in inner) or (set(params) & _stored_names(hb)):
+            return None
+        sub = Roles()
+        for p_, arg in zip(params, st.value.args):
+            if arg.id in roles.path:
+                sub.path[p_] = roles.path[arg.id]
+        return hb, sub
+
+    def reg_body(stmts, roles, where, top):
+        for st in strip_doc(stmts):
+            if isinstance(st, ast.Assign) and len(st.targets) == 1 and isinstance(st.targets[0], ast.Name):
+                v, val = st.targets[0].id, U(st.value)
+                m = re.fullmatch(r"os\.path\.join\(basedir, ('[^'/]+')\)", val)
+                if m and top:
+                    found["base"] = ast.literal_eval(m.group(1))
+                    roles.path[v] = "Final"
+                    continue
+                m = re.fullmatch(r"(\w+) \+ ('[^'/]+')", val)
+                if m and top and roles.path.get(m.group(1)) == "Final":
+                    found["ext"] = ast.literal_eval(m.group(2))
+                    roles.path[v] = "Tmp"
+                    continue
+                m = re.fullmatch(r"open\((\w+), '(\w+)'\)", val)
+                if m and m.group(1) in roles.path:
+                    if "w" not in m.group(2):
+                        raise P.Untranslatable("save_service_data opens with mode %r" % m.group(2))
+                    roles.handle[v] = roles.path[m.group(1)]
+                    steps.append("SOpen %s" % roles.path[m.group(1)])
+                    continue
+            vh = void_helper(st)
+            if vh is not None:
+                if not reg_body(vh[0], vh[1], where + ">" + st.value.func.id, False):
+                    raise P.Untranslatable("%s: helper %s returns early" % (where, st.value.func.id))
                 continue
-            m = re.fullmatch(r"(\w+) \+ ('[^'/]+')", val)
-            if m and roles.path.get(m.group(1)) == "Final":
-                ext = ast.literal_eval(m.group(2))
-                roles.path[v] = "Tmp"
-                continue
-            m = re.fullmatch(r"open\((\w+), '(\w+)'\)", val)
-            if m and m.group(1) in roles.path:
-                if "w" not in m.group(2):
-                    raise P.Untranslatable("save_service_data opens with mode %r" % m.group(2))
-                roles.handle[v] = roles.path[m.group(1)]
-                steps.append("SOpen %s" % roles.path[m.group(1)])
-                continue
-        s = step_of_stmt(st, roles, "save_service_data", expand_call={"move_into_place": (mparams, mip)})
-        if s is None:
-            break
-        steps += s
+            s = step_of_stmt(st, roles, where, expand_call={"move_into_place": (mparams, mip)})
+            if s is None:
+                return False
+            steps.extend(s)
+        return True
+
+    reg_body(fn.body, roles, "save_service_data", True)
+    base, ext = found.get("base"), found.get("ext")
     if base is None or ext is None:
         raise P.Untranslatable("save_service_data: services file / tmp file construction not recognised")
     out.append("(* appserver/server.py save_service_data + util.py move_into_place *)")
     out.append("Definition registry_basename : list N := %s.  (* %r *)" % (blist(base), base))
     out.append("Definition registry_tmp_ext : list N := %s.  (* %r *)" % (blist(ext), ext))
     out.append(coq_steps("registry_steps", steps))
+    # load_service_data reads the file that save_service_data publishes: join(basedir, <literal>), used when
+    # os.path.exists() says it is there, parsed with json.load(open(...))
+    ld = strip_doc(P.find_def(mod, "load_service_data").body)
+    lbase = lvar = None
+    for st in ld:
+        if isinstance(st, ast.Assign) and len(st.targets) == 1 and isinstance(st.targets[0], ast.Name):
+            m = re.fullmatch(r"os\.path\.join\(basedir, ('[^'/]+')\)", U(st.value))
+            if m:
+                lvar, lbase = st.targets[0].id, ast.literal_eval(m.group(1))
+                break
+    ifs = [st for st in ld if isinstance(st, ast.If) and lvar and U(st.test) == "os.path.exists(%s)" % lvar]
+    if lbase is None or len(ifs) != 1 or not re.search(r"json\.load\(\s*open\(%s(, 'rb?')?\)\s*\)|json\.load\((\w+)\)" % re.escape(lvar),
+                                                      "\n".join(U(s) for s in ifs[0].body)):
+        raise P.Untranslatable("load_service_data: the services file is no longer join(basedir, <literal>) read with json.load "
+                               "when os.path.exists() holds")
+    out.append("Definition registry_load_basename : list N := %s.  (* %r: what load_service_data reads *)" % (blist(lbase), lbase))
 
 
 class _Rename(ast.NodeTransformer):
@@ -462,14 +615,41 @@ def gen_gatherer(out):
     m = re.fullmatch(r"(\w+) = self\.basedir\.child\('latest'\)\.path", ul[0]) if ul else None
     via_local = bool(m) and len(ul) >= 2 and ul[1] == "f = open(%s, 'w')" % m.group(1) and m.group(1) != "f" \
         and sum(len(re.findall(r"\b%s\b" % re.escape(m.group(1)), t)) for t in ul) == 2
+    if m and not via_local and len(ul) >= 3 and m.group(1) != "f":
+        # v = <expr> ; if os.path.islink(v): os.unlink(v) ; f = open(v, 'w')     (v used nowhere else)
+        v = m.group(1)
+        via_local = ul[1] in ("if os.path.islink(%s):\n    os.unlink(%s)" % (v, v), "if os.path.islink(%s):\n    os.remove(%s)" % (v, v)) \
+            and ul[2] == "f = open(%s, 'w')" % v and sum(len(re.findall(r"\b%s\b" % re.escape(v), t)) for t in ul) == 4
     if ul[:1] != ["f = open(self.basedir.child('latest').path, 'w')"] and not via_local:
         raise P.Untranslatable("update_latest changed: %s" % ul)
+    # is a pre-existing symbolic link at the file's name removed before the file is opened for writing?
+    #   if os.path.islink(X): os.unlink(X) | os.remove(X)      immediately before     f = bz2.BZ2File(X, 'w') / f = open(X, 'w')
+    def link_guarded(texts, open_re, what):
+        idx = [i for i, t in enumerate(texts) if re.fullmatch(open_re, t)]
+        if len(idx) != 1:
+            raise P.Untranslatable("%s: expected exactly one statement opening the file for writing: %s" % (what, texts))
+        i = idx[0]
+        x = re.fullmatch(open_re, texts[i]).group(1)
+        guard = i > 0 and texts[i - 1] in ("if os.path.islink(%s):\n    os.unlink(%s)" % (x, x), "if os.path.islink(%s):\n    os.remove(%s)" % (x, x))
+        others = [t for j, t in enumerate(texts) if j != i and not (guard and j == i - 1)
+                  and re.search(r"\bos\.(unlink|remove|rename|replace|symlink|link)\b|\bislink\b|\bopen\(|BZ2File\(", t)]
+        if others:
+            raise P.Untranslatable("%s: unrecognised file statement(s): %s" % (what, others))
+        if "f.close()" not in texts[i + 1:]:
+            raise P.Untranslatable("%s: the file is not closed by f.close(): %s" % (what, texts))
+        return guard
+    save_guarded = link_guarded(si, r"f = bz2\.BZ2File\((\w+), 'w'\)", "save_incident")
+    latest_guarded = link_guarded(ul, r"f = open\((.+), 'w'\)", "update_latest")
     out.append("(* logging/gatherer.py IncidentObserver._got_incident *)")
     out.append("Definition gatherer_guard : guardk := %s." % guard)
     out.append("Definition gatherer_path_source : pathsrc := %s.  (* is the written file derived from the validated child "
                "or from the raw name *)" % source)
     out.append("Definition gatherer_ext : list N := %s.  (* %r *)" % (blist(ext), ext))
     out.append("Definition gatherer_latest : list N := %s." % blist("latest"))
+    out.append("Definition gatherer_save_guarded : bool := %s.  (* save_incident removes a pre-existing symlink before opening the savefile *)"
+               % ("true" if save_guarded else "false"))
+    out.append("Definition gatherer_latest_guarded : bool := %s.  (* update_latest removes a pre-existing symlink before opening `latest` *)"
+               % ("true" if latest_guarded else "false"))
 
 
 def gen_publisher(out):
@@ -519,12 +699,47 @@ def gen_publisher(out):
     if not m or "fn = abs_fn" not in U(trys[0].body[1]) or "events = flogfile.get_events(fn)" not in tt:
         raise P.Untranslatable("remote_get_incident: file selection changed: %s" % tt)
     ext2 = ast.literal_eval(m.group(1))
+    # `if os.path.islink(fn): raise KeyError(..)` between the selection of fn and flogfile.get_events(fn)
+    i_ev = tt.index("events = flogfile.get_events(fn)")
+    link_refused = any(re.fullmatch(r"if os\.path\.islink\(fn\):\n    raise KeyError\(.*\)", t) for t in tt[2:i_ev])
+    if any(re.search(r"\bfn\s*=", t) for t in tt[2:i_ev]):
+        raise P.Untranslatable("remote_get_incident: fn is re-assigned before it is read: %s" % tt)
     guard = "GuardParentEq" if (guard_at is not None and guard_at < body.index(trys[0])) else "NoGuard"
     out.append("(* logging/publish.py LogPublisher.remote_get_incident *)")
     out.append("Definition publisher_prefix : list N := %s.  (* %r *)" % (blist(prefix), prefix))
     out.append("Definition publisher_guard : guardk := %s." % guard)
     out.append("Definition publisher_ext : list N := %s.  (* %r *)" % (blist(ext1), ext1))
     out.append("Definition publisher_ext2 : list N := %s.  (* %r, tried first as abs_fn + ext2 *)" % (blist(ext2), ext2))
+    out.append("Definition publisher_link_refused : bool := %s.  (* a symbolic link at the selected file name is refused (KeyError) instead of read *)"
+               % ("true" if link_refused else "false"))
+    # list_incident_names: which entries of os.listdir(logdir) are reported (and opened by get_incident_trigger)
+    ln = P.find_def(mod, "LogPublisher.list_incident_names")
+    lb = strip_doc(ln.body)
+    lt = [U(s) for s in lb]
+    loops = [s for s in lb if isinstance(s, ast.For)]
+    if "basedir = self._logger.logdir" not in lt or len(loops) != 1 or U(loops[0].iter) != "os.listdir(basedir)" \
+            or U(loops[0].target) != "fn" or len(loops[0].body) != 1 or not isinstance(loops[0].body[0], ast.If) or loops[0].body[0].orelse:
+        raise P.Untranslatable("list_incident_names: no longer one loop over os.listdir(self._logger.logdir): %s" % lt)
+    sel = loops[0].body[0]
+    m = re.fullmatch(r"fn\.startswith\(('[^']*')\) and \(?not fn\.endswith\(('[^']*')\)\)?", U(sel.test))
+    inner = [U(s) for s in sel.body]
+    m2 = re.fullmatch(r"basename = six\.ensure_str\(self\.trim\(fn, (.+)\)\)", inner[0]) if inner else None
+    ok = (m and m2 and len(sel.body) == 2 and isinstance(sel.body[1], ast.If) and not sel.body[1].orelse
+          and U(sel.body[1].test) == "basename > since"
+          and [U(s) for s in sel.body[1].body] == ["fullname = six.ensure_str(os.path.join(basedir, fn))", "yield (basename, fullname)"])
+    if not ok:
+        raise P.Untranslatable("list_incident_names: selection / naming changed: %s" % U(sel))
+    trims = list(ast.literal_eval("(" + m2.group(1) + ",)"))
+    tr = [U(s) for s in strip_doc(P.find_def(mod, "LogPublisher.trim").body)]
+    if tr != ["for suffix in suffixes:\n    if s.endswith(suffix):\n        s = s[:-len(suffix)]", "return s"] or not all(isinstance(x, str) and x for x in trims):
+        raise P.Untranslatable("LogPublisher.trim changed: %s" % tr)
+    git = [U(s) for s in strip_doc(P.find_def(mod, "LogPublisher.get_incident_trigger").body)]
+    if not git or git[0] != "events = flogfile.get_events(abs_fn)":
+        raise P.Untranslatable("get_incident_trigger no longer reads exactly the file it is given: %s" % git[:1])
+    out.append("(* logging/publish.py LogPublisher.list_incident_names / trim *)")
+    out.append("Definition listing_prefix : list N := %s.  (* %r *)" % (blist(ast.literal_eval(m.group(1))), ast.literal_eval(m.group(1))))
+    out.append("Definition listing_skip_suffix : list N := %s.  (* %r *)" % (blist(ast.literal_eval(m.group(2))), ast.literal_eval(m.group(2))))
+    out.append("Definition listing_trim : list (list N) := [%s].  (* %r *)" % ("; ".join(blist(x) for x in trims), trims))
 
 
 def generate():
